@@ -24,6 +24,9 @@ type obj struct {
 	set    func(Vector) error
 	clone  func() *obj
 	stype  func() ScalarType
+	// export: the configuration of the object; imp: a new object from a configuration
+	export func() st.ConfigDistribution
+	imp    func(c st.ConfigDistribution, t ScalarType) (*obj, error)
 	ps     []Scalar // the scalars handed to the constructor (index = parameter number - 1)
 }
 
@@ -91,6 +94,14 @@ func wrapScalar(d st.ScalarPdf) *obj {
 	o.set = d.SetParameters
 	o.stype = d.ScalarType
 	o.clone = func() *obj { return wrapScalar(d.CloneScalarPdf()) }
+	o.export = d.ExportConfig
+	o.imp = func(c st.ConfigDistribution, t ScalarType) (*obj, error) {
+		d2, err := st.ImportScalarPdfConfig(c, t)
+		if err != nil {
+			return nil, err
+		}
+		return wrapScalar(d2), nil
+	}
 	if c, ok := d.(interface {
 		Cdf(Scalar, ConstScalar) error
 	}); ok {
@@ -122,16 +133,43 @@ func wrapVector(d st.VectorPdf) *obj {
 	o.set = d.SetParameters
 	o.stype = d.ScalarType
 	o.clone = func() *obj { return wrapVector(d.CloneVectorPdf()) }
+	o.export = d.ExportConfig
+	o.imp = func(c st.ConfigDistribution, t ScalarType) (*obj, error) {
+		d2, err := st.ImportVectorPdfConfig(c, t)
+		if err != nil {
+			return nil, err
+		}
+		return wrapVector(d2), nil
+	}
 	return o
 }
 
-func wrapMatrix(d st.MatrixPdf) *obj {
+// colOf: the coordinates as the rows of an n x 1 matrix (a sequence of 1-d observations)
+func colOf(x []Scalar) Matrix {
+	m := NullDenseMatrix(x[0].Type(), len(x), 1)
+	for i := range x {
+		m.At(i, 0).Set(x[i])
+	}
+	return m
+}
+
+func wrapMatrix(d st.MatrixPdf) *obj { return wrapMatrixWith(d, matOf) }
+
+func wrapMatrixWith(d st.MatrixPdf, mk func([]Scalar) Matrix) *obj {
 	o := &obj{}
-	o.logpdf = func(r Scalar, x []Scalar) error { return d.LogPdf(r, matOf(x)) }
+	o.logpdf = func(r Scalar, x []Scalar) error { return d.LogPdf(r, mk(x)) }
 	o.get = d.GetParameters
 	o.set = d.SetParameters
 	o.stype = d.ScalarType
-	o.clone = func() *obj { return wrapMatrix(d.CloneMatrixPdf()) }
+	o.clone = func() *obj { return wrapMatrixWith(d.CloneMatrixPdf(), mk) }
+	o.export = d.ExportConfig
+	o.imp = func(c st.ConfigDistribution, t ScalarType) (*obj, error) {
+		d2, err := st.ImportMatrixPdfConfig(c, t)
+		if err != nil {
+			return nil, err
+		}
+		return wrapMatrixWith(d2, mk), nil
+	}
 	return o
 }
 
@@ -313,6 +351,122 @@ func build(fam string, p []float64, t ScalarType, variables bool) (*obj, error) 
 	case "skewnormal":
 		d, e := vd.NewSkewNormalDistribution(vecOf(t, ps[0:2]), sym2(t, s(3), s(4), s(5)), vecOf(t, ps[5:7]), vecOf(t, ps[7:9]))
 		err = vc(d, e)
+	case "hmm2_nn":
+		c1, e := sd.NewNormalDistribution(s(7), s(8))
+		if e != nil {
+			return nil, e
+		}
+		c2, e := sd.NewNormalDistribution(s(9), s(10))
+		if e != nil {
+			return nil, e
+		}
+		tr := NullDenseMatrix(t, 2, 2)
+		for i := 0; i < 4; i++ {
+			tr.At(i/2, i%2).Set(ps[2+i])
+		}
+		d, e := vd.NewHmm(vecOf(t, ps[0:2]), tr, nil, []st.ScalarPdf{c1, c2})
+		err = vc(d, e)
+	case "mhmm2_vn1":
+		c1, e := vd.NewNormalDistribution(vecOf(t, ps[6:7]), sym1(t, s(8)))
+		if e != nil {
+			return nil, e
+		}
+		c2, e := vd.NewNormalDistribution(vecOf(t, ps[8:9]), sym1(t, s(10)))
+		if e != nil {
+			return nil, e
+		}
+		tr := NullDenseMatrix(t, 2, 2)
+		for i := 0; i < 4; i++ {
+			tr.At(i/2, i%2).Set(ps[2+i])
+		}
+		d, e := md.NewHmm(vecOf(t, ps[0:2]), tr, nil, []st.VectorPdf{c1, c2})
+		if e != nil {
+			return nil, e
+		}
+		o = wrapMatrixWith(d, colOf)
+	case "mix1_normal":
+		c1, e := sd.NewNormalDistribution(s(2), s(3))
+		if e != nil {
+			return nil, e
+		}
+		d, e := sd.NewMixture(vecOf(t, ps[0:1]), []st.ScalarPdf{c1})
+		err = sc(d, e)
+	case "mix3_nen":
+		c1, e := sd.NewNormalDistribution(s(4), s(5))
+		if e != nil {
+			return nil, e
+		}
+		c2, e := sd.NewExponentialDistribution(s(6))
+		if e != nil {
+			return nil, e
+		}
+		c3, e := sd.NewNormalDistribution(s(7), s(8))
+		if e != nil {
+			return nil, e
+		}
+		d, e := sd.NewMixture(vecOf(t, ps[0:3]), []st.ScalarPdf{c1, c2, c3})
+		err = sc(d, e)
+	case "mixnest":
+		c1, e := sd.NewNormalDistribution(s(5), s(6))
+		if e != nil {
+			return nil, e
+		}
+		c2, e := sd.NewExponentialDistribution(s(7))
+		if e != nil {
+			return nil, e
+		}
+		inner, e := sd.NewMixture(vecOf(t, ps[2:4]), []st.ScalarPdf{c1, c2})
+		if e != nil {
+			return nil, e
+		}
+		c3, e := sd.NewNormalDistribution(s(8), s(9))
+		if e != nil {
+			return nil, e
+		}
+		d, e := sd.NewMixture(vecOf(t, ps[0:2]), []st.ScalarPdf{inner, c3})
+		err = sc(d, e)
+	case "vmix1_vnormal":
+		c1, e := vd.NewNormalDistribution(vecOf(t, ps[1:3]), sym2(t, s(4), s(5), s(6)))
+		if e != nil {
+			return nil, e
+		}
+		d, e := vd.NewMixture(vecOf(t, ps[0:1]), []st.VectorPdf{c1})
+		err = vc(d, e)
+	case "vmix2_vn1":
+		c1, e := vd.NewNormalDistribution(vecOf(t, ps[2:3]), sym1(t, s(4)))
+		if e != nil {
+			return nil, e
+		}
+		c2, e := vd.NewNormalDistribution(vecOf(t, ps[4:5]), sym1(t, s(6)))
+		if e != nil {
+			return nil, e
+		}
+		d, e := vd.NewMixture(vecOf(t, ps[0:2]), []st.VectorPdf{c1, c2})
+		err = vc(d, e)
+	case "mmix1_iw1":
+		c1, e := md.NewInverseWishartDistribution(s(2), sym1(t, s(3)))
+		if e != nil {
+			return nil, e
+		}
+		d, e := md.NewMixture(vecOf(t, ps[0:1]), []st.MatrixPdf{c1})
+		if e != nil {
+			return nil, e
+		}
+		o = wrapMatrix(d)
+	case "mmix2_iw1":
+		c1, e := md.NewInverseWishartDistribution(s(3), sym1(t, s(4)))
+		if e != nil {
+			return nil, e
+		}
+		c2, e := md.NewInverseWishartDistribution(s(5), sym1(t, s(6)))
+		if e != nil {
+			return nil, e
+		}
+		d, e := md.NewMixture(vecOf(t, ps[0:2]), []st.MatrixPdf{c1, c2})
+		if e != nil {
+			return nil, e
+		}
+		o = wrapMatrix(d)
 	case "vnormal1":
 		d, e := vd.NewNormalDistribution(vecOf(t, ps[0:1]), sym1(t, s(2)))
 		err = vc(d, e)
